@@ -621,3 +621,40 @@ class _fill2d_u:
     def _(a, old, result):
         want = np.promote_types(attr(old.self, "_dtype"), np.float64 if hasattr(old, "weight") else np.int64)
         return And(attr(a.self, "_dtype") == want, dtype_of(attr(a.self, "_frequencies")) == want, dtype_of(attr(a.self, "_errors2")) == want)
+
+
+@contract(H2 + ".T", props=["C09", "C12"], name=H2 + ".T[any shape]")
+class _transpose_u:
+    """h.T for ANY shape: bins, names and contents swapped consistently; T.T is the original; nothing shared with the source"""
+    probe = "quantifier-free"
+
+    def inputs(b):
+        n0, n1 = b.int("n0"), b.int("n1")
+        b.assume(And(n0 >= 1, n1 >= 1))
+        return dict(self=hist2d_t(b, "h", n0, n1))
+
+    def invoke(I, fn, a, cfg):
+        if I is not None:
+            t = I.getattr(a.self, "T")
+            return (t, I.getattr(t, "T"))
+        return (a.self.T, a.self.T.T)
+
+    @ensures("bins_names_and_contents_are_swapped_and_twice_is_the_original")
+    def _(a, old, result):
+        t, tt = result
+        F0, E0 = attr(old.self, "_frequencies"), attr(old.self, "_errors2")
+        n0, n1 = shape_of(F0)
+        Ft, Et, Ftt = attr(t, "_frequencies"), attr(t, "_errors2"), attr(tt, "_frequencies")
+        b0 = [attr(bn, "_bins") for bn in attr(old.self, "_binnings")]
+        bt = [attr(bn, "_bins") for bn in attr(t, "_binnings")]
+        return And(typename(t) == "Histogram2D", shape_of(Ft)[0] == n1, shape_of(Ft)[1] == n0,
+                   forall(0, n0, lambda i: forall(0, n1, lambda j: And(Ft[j, i] == F0[i, j], Et[j, i] == E0[i, j], Ftt[i, j] == F0[i, j]))),
+                   same(bt[0], b0[1]), same(bt[1], b0[0]),
+                   tuple(attr(t, "_meta_data")["axis_names"]) == ("yy", "xx"), tuple(attr(tt, "_meta_data")["axis_names"]) == ("xx", "yy"),
+                   same(elems(attr(t, "_missed")), elems(attr(old.self, "_missed"))))
+
+    @ensures("the_source_is_untouched_and_shares_no_binning_with_the_transposed_histogram")
+    def _(a, old, result):
+        t = result[0]
+        return And(same(attr(old.self, "_frequencies"), attr(a.self, "_frequencies")), tuple(attr(a.self, "_meta_data")["axis_names"]) == ("xx", "yy"),
+                   *[x is not y for x in attr(t, "_binnings") for y in attr(a.self, "_binnings")], t is not a.self)
